@@ -28,6 +28,28 @@ CLAIMED = {
    text="Generated messages with unknown and mis-ordered verifiable attributes, unmutated or with 1-3 structure-aware mutations, are decoded under every option combination and the context-less decoder; validation-success implies identical unvalidated result, unknown-data only adds exactly the raw wire value, the unordered result is every wire attribute in order with the default result its admitted subsequence, no-context equals default context, key irrelevant without validation.",
    note="Library messages are compared through Debug renderings; raw values come from the harness's own TLV walk.",
    ref="3/C18"),
+ "C04": dict(
+   technique="property-based testing with exhaustive single-bit fault injection over the protected bytes, against an independent HMAC/key-derivation implementation",
+   category="fault_enumeration",
+   text="For each generated message with an integrity tail the key bytes and the MAC are compared with a reference derivation (own MD5/SHA-1/SHA-256/HMAC), the untampered message must be accepted with validation (also with the other integrity attribute and FINGERPRINT after it), and then every bit of every protected byte and of the MAC is flipped (exhaustive up to 200 protected bytes, 512 sampled positions above) and wrong keys differing in one character / algorithm / mechanism are tried; none may be accepted as authenticated.",
+   note="Accepted = validated decode returns the attribute, or its validate() over get_input_text is true. Collisions ignored. Key strings from OpaqueString-stable alphabets.",
+   ref="3/C04"),
+ "C10": dict(
+   technique="property-based testing with exhaustive single-bit / single-byte fault injection against an independent CRC-32, plus model-based client histories",
+   category="fault_enumeration",
+   text="Codec: the wire CRC of every generated message equals the reference CRC-32 of the prefix with adjusted length XOR 0x5354554e; every single-bit fault at every bit and four byte substitutions at every byte (exhaustive up to 300 bytes) must never be accepted as carrying a valid FINGERPRINT. Client: histories of a fingerprint-configured client under every credential mechanism check that every emitted packet ends with a valid FINGERPRINT and that nothing is delivered or completed by a message whose FINGERPRINT is absent, corrupted or misplaced.",
+   note="Trusted: reference CRC (self-tested), reference codec, client model in sim/.",
+   ref="3/C10"),
+ "C16": dict(
+   technique="property-based testing with exhaustive 2-cut / 3-cut chunking enumeration per generated stream against a trivial reference splitter",
+   text="Streams of 1-3 reference-encoded packets (optionally with a bad header or an oversized packet at position k, or a truncated trailing packet) are fed whole, byte by byte, with generated multi-cuts and with all 2-cut (<=120/300 bytes) and 3-cut (<=48/80 bytes) chunkings including empty chunks; packets, consumed counts, missing-byte reports and the error (type, size, consumed, buffer handed back) must equal the reference splitter's for every chunking.",
+   note="The controller loop (fresh decoder after each packet, remainder of the chunk re-fed) is the harness's reading of the API.",
+   ref="3/C16"),
+ "C19": dict(
+   technique="exhaustive enumeration of u16/u8 domains plus property-based testing of constructors/accessors and model-based clone/mutate sequences under catch_unwind",
+   text="All u16 and u8 values go through every small-domain conversion with results compared to the RFC bit layouts; generated Unicode strings (controls, combining marks, format characters, astral, lengths around 508/509/763) through every string and key constructor; nonce cookies with a multi-byte character at each byte offset 0..16; every attribute kind through all as_/is_/expect_ accessors; clone-then-mutate sequences on PasswordAlgorithms, UnknownAttributes and StunAttributes against a Vec model. A panic located in library code is a violation.",
+   note="expect_* only on the matching variant. Panic attribution by source location.",
+   ref="3/C19"),
 }
 WIP = "check not yet built in this round (work in progress, see DESIGN.md section 3)"
 ALL = ["C%02d" % i for i in range(1, 20)]
